@@ -136,6 +136,11 @@ fn %s() {
         res["reproduced"] = witness is not None
         if not witness:
             res["note"] = f"no native witness among {len(combos)} boundary candidates: {modes}"
+        if witness:
+            wm = re.search(r"inputs=(\[\[.*?\]\]) panic=", witness)
+            if wm:
+                one = "vec![" + ", ".join("vec!" + part for part in re.findall(r"\[[\d, ]*\]", wm.group(1)[1:-1])) + "]"
+                test_src = test_src.replace(",\n        ".join(rows), one)
         hdr = ("// Native witness search for harness %s (Kani concrete playback is unaffordable for it).\n"
                "// The harness function itself is run natively over %d boundary candidates; kani::any() is fed by kani::concrete_playback_run.\n"
                "// result: %s\n" % (h["name"], len(combos), modes))
